@@ -37,7 +37,7 @@ use std::sync::{Arc, Mutex};
 use serde_json::{Value, json};
 use sozu_command_lib::config::Config;
 use sozu_command_lib::proto::command::{
-    LoadBalancingAlgorithms, PathRuleKind, ProxyProtocolConfig, RulePosition, WorkerRequest,
+    LoadBalancingAlgorithms, PathRuleKind, ProxyProtocolConfig, WorkerRequest,
 };
 use sozu_command_lib::state::{ConfigState, StateError};
 
@@ -146,6 +146,9 @@ fn front_kv(f: &Value, c: &Conc) -> (Vec<(String, String)>, Option<Vec<(String, 
     if s(f, "host") != "none" { kv.push(("hostname".into(), format!("\"{}\"", c.host(s(f, "host"))))); }
     if on(f, "path") { kv.push(("path".into(), "\"/api\"".into())); }
     if on(f, "ptype") { kv.push(("path_type".into(), format!("\"{}\"", s(f, "ptype")))); }
+    if on(f, "method") { kv.push(("method".into(), format!("\"{}\"", s(f, "method")))); }
+    if on(f, "position") { kv.push(("position".into(), format!("\"{}\"", s(f, "position")))); }
+    if on(f, "tags") { kv.push(("tags".into(), format!("{{ team = \"{}\" }}", s(f, "tags")))); }
     if on(f, "cert") {
         let (ce, ke) = c.cert(s(f, "cert"));
         kv.push(("certificate".into(), format!("\"{ce}\"")));
@@ -397,15 +400,17 @@ fn project(state: &ConfigState, certs: &Certs) -> Value {
             Ok(PathRuleKind::Prefix) => "prefix", Ok(PathRuleKind::Regex) => "regex", Ok(PathRuleKind::Equals) => "equals", Err(_) => "invalid",
         };
         let mut r = json!({"cluster": f.cluster_id.clone().unwrap_or_else(|| "<deny>".into()), "addr": addr_name(&f.address),
-            "host": host_name(&f.hostname), "pkind": pkind, "path": f.path.value, "hsts": hsts_name(&f.hsts)});
+            "host": host_name(&f.hostname), "pkind": pkind, "path": f.path.value, "hsts": hsts_name(&f.hsts),
+            "method": f.method.clone().unwrap_or_else(|| "absent".into()),
+            "position": f.position.as_str_name(),
+            // a tag set is either not there (the loader sends an empty map) or the one the renderer writes
+            "tags": match &f.tags { None => "absent".to_string(), Some(t) if t.is_empty() => "absent".to_string(),
+                Some(t) if t.len() == 1 && t.contains_key("team") => t["team"].clone(), Some(t) => format!("{t:?}") }});
         let mut u = Vec::new();
-        if f.method.is_some() { u.push(format!("method={:?}", f.method)); }
-        if f.position != RulePosition::Tree { u.push(format!("position={:?}", f.position)); }
         if f.redirect.is_some() || f.redirect_scheme.is_some() || f.redirect_template.is_some() { u.push("redirect".into()); }
         if f.rewrite_host.is_some() || f.rewrite_path.is_some() || f.rewrite_port.is_some() { u.push("rewrite".into()); }
         if f.required_auth == Some(true) { u.push("required_auth".into()); }
         if !f.headers.is_empty() { u.push("headers".into()); }
-        if f.tags.as_ref().is_some_and(|t| !t.is_empty()) { u.push("tags".into()); }
         put_unexpected(&mut r, u);
         r
     };
@@ -444,7 +449,8 @@ fn project(state: &ConfigState, certs: &Certs) -> Value {
             let mut u = Vec::new();
             if &b.cluster_id != id { u.push("cluster_id differs from key".to_string()); }
             if b.sticky_id.is_some() { u.push("sticky_id".into()); }
-            if !ids.insert(b.backend_id.clone()) { u.push(format!("backend_id {} used twice", b.backend_id)); }
+            // identity of a backend inside its cluster: (backend_id, address)
+            if !ids.insert((b.backend_id.clone(), b.address)) { u.push(format!("backend {} {} held twice", b.backend_id, b.address)); }
             put_unexpected(&mut r, u);
             backends.push(r);
         }
@@ -750,6 +756,7 @@ fn main() {
     let classes: Arc<Mutex<BTreeMap<String, u64>>> = Arc::new(Mutex::new(BTreeMap::new()));
     let constraint_hits: Arc<Mutex<BTreeMap<String, u64>>> = Arc::new(Mutex::new(BTreeMap::new()));
     let feature_hits: Arc<Mutex<BTreeMap<String, u64>>> = Arc::new(Mutex::new(BTreeMap::new()));
+    let pair_hits: Arc<Mutex<BTreeMap<String, u64>>> = Arc::new(Mutex::new(BTreeMap::new()));
     let samples: Arc<Mutex<Vec<Value>>> = Arc::new(Mutex::new(Vec::new()));
     let bases: Arc<Mutex<Vec<(String, String)>>> = Arc::new(Mutex::new(Vec::new()));
 
@@ -757,6 +764,7 @@ fn main() {
     for t in 0..threads {
         let n_nontrivial = n_nontrivial.clone();
         let feature_hits = feature_hits.clone();
+        let pair_hits = pair_hits.clone();
         let (ctx, rx, n_files, n_valid, n_runs, n_msgs, n_dev, violations, classes, constraint_hits, samples, bases, dump_dir) = (
             ctx.clone(), rx.clone(), n_files.clone(), n_valid.clone(), n_runs.clone(), n_msgs.clone(), n_dev.clone(),
             violations.clone(), classes.clone(), constraint_hits.clone(), samples.clone(), bases.clone(), dump_dir.clone());
@@ -779,6 +787,16 @@ fn main() {
                     }
                 }
                 {
+                    // identity pairs (valid files) and non-identity decoys the spec says this file holds
+                    let mut ph = pair_hits.lock().unwrap();
+                    for (key, prefix) in [("pairs", "pair"), ("decoys", "decoy")] {
+                        for p in rec[key].as_array().map(|a| a.as_slice()).unwrap_or(&[]) {
+                            let name = format!("{prefix}:{}:{}", p[0].as_str().unwrap_or("?"), p[1].as_str().unwrap_or("?"));
+                            *ph.entry(name).or_insert(0) += 1;
+                        }
+                    }
+                }
+                {
                     // which editing actions of the spec does this file witness (vacuity guard for the generator)
                     let f = &rec["file"];
                     let any_on = |v: &Value, keys: &[&str]| keys.iter().any(|k| on(v, k));
@@ -794,7 +812,7 @@ fn main() {
                         let base_host = if s(c, "proto") == "http" { "h1" } else { "none" };
                         for fr in c["fronts"].as_array().map(|a| a.as_slice()).unwrap_or(&[]) {
                             feats.push("NewFrontend");
-                            if any_on(fr, &["path", "ptype", "cert", "hsts"]) { feats.push("EditFrontend"); }
+                            if any_on(fr, &["path", "ptype", "method", "cert", "hsts", "position", "tags"]) { feats.push("EditFrontend"); }
                             if s(fr, "host") != base_host { feats.push("EditFrontendHost"); }
                         }
                         for b in c["backs"].as_array().map(|a| a.as_slice()).unwrap_or(&[]) {
@@ -944,5 +962,6 @@ fn main() {
     emit(&json!({"kind":"summary","files": n_files.load(Ordering::SeqCst), "valid_files": n_valid.load(Ordering::SeqCst), "nonempty_files": n_nontrivial.load(Ordering::SeqCst),
         "runs": n_runs.load(Ordering::SeqCst), "messages_dispatched": n_msgs.load(Ordering::SeqCst),
         "deviation_explained": n_dev.load(Ordering::SeqCst), "scale_runs": scale_runs, "scale_max_messages": scale_max_msgs,
-        "classes": *classes.lock().unwrap(), "constraint_hits": *constraint_hits.lock().unwrap(), "action_hits": *feature_hits.lock().unwrap(), "samples": all_samples}));
+        "classes": *classes.lock().unwrap(), "constraint_hits": *constraint_hits.lock().unwrap(), "action_hits": *feature_hits.lock().unwrap(),
+        "pair_hits": *pair_hits.lock().unwrap(), "samples": all_samples}));
 }
